@@ -355,6 +355,7 @@ func (e *Environment) update(name string, found, val Object) Object {
 	}
 	if rr, ok := found.(Reference); ok {
 		log.Debugf("SetNoChecks(%s) updating ref %s in %d", name, rr.Name, rr.RefEnv.depth)
+		e.getMiss++ // writing an outer binding (even a function valued one) is a side effect: not cacheable.
 		e = rr.RefEnv
 		name = rr.Name
 	}
@@ -379,6 +380,8 @@ func (e *Environment) SetNoChecks(name string, val Object, create bool) Object {
 	// New name... let's see if it's really new or making it a ref.
 	if ref, ok := e.makeRef(name); ok {
 		log.Debugf("SetNoChecks(%s) created ref %s in %d", name, ref.Name, ref.RefEnv.depth)
+		// writing an outer binding (even a function valued one) is a side effect: not cacheable.
+		e.getMiss++
 		ref.RefEnv.store[ref.Name] = Value(val) // kinda neat to make aliases but it can create loops, so not for now.
 		return val
 	}
